@@ -1030,7 +1030,7 @@ class System(StoredHw, Datetime, Logbook, SystemBase):
         if not self._heat_demands:
             return None
         return {
-            k: v.payload["heat_demand"]
+            k: v.payload.get("heat_demand")  # may be a fault, i.e. heat_demand_fault
             for k, v in self._heat_demands.items()
             if not v._expired
         }
@@ -1041,7 +1041,7 @@ class System(StoredHw, Datetime, Logbook, SystemBase):
         if not self._relay_demands:
             return None
         return {
-            k: v.payload["relay_demand"]
+            k: v.payload.get("relay_demand")
             for k, v in self._relay_demands.items()
             if not v._expired
         }
